@@ -111,7 +111,7 @@ var (
 	hintCache = map[string]*hintSpec{}
 )
 
-var garbageHints =[]string{"not-a-jwt", "a.b.c", "....", "e30.e30.e30", "eyJhbGciOiJSUzI1NiJ9.e30.", ".", " ", "eyJhbGciOiJSUzI1NiJ9.bm90IGpzb24.c2ln", "e30.W10.e30", "eyJhbGciOiJSUzI1NiJ9.InN0cmluZyI.c2ln", "eyJhbGciOiJSUzI1NiJ9.MTIz.c2ln"}
+var garbageHints = []string{"not-a-jwt", "a.b.c", "....", "e30.e30.e30", "eyJhbGciOiJSUzI1NiJ9.e30.", ".", " ", "eyJhbGciOiJSUzI1NiJ9.bm90IGpzb24.c2ln", "e30.W10.e30", "eyJhbGciOiJSUzI1NiJ9.InN0cmluZyI.c2ln", "eyJhbGciOiJSUzI1NiJ9.MTIz.c2ln"}
 
 // hint materialises the hint of a case in a world (cached per world: a hint is stateless).
 func (wc *wctx) hint(router int, cs *caseSpec) (*hintSpec, error) {
